@@ -39,9 +39,12 @@ var (
 )
 
 func getNodeBreakersOfResource(resource string) map[string]circuitbreaker.CircuitBreaker {
+	// The copy has to be made under the lock: the inner map is written in place by
+	// addNodeBreakerOfResource / deleteNodeBreakerOfResource, and iterating it concurrently with
+	// such a write is a fatal "concurrent map iteration and map write".
 	updateMux.RLock()
+	defer updateMux.RUnlock()
 	nodes := nodeBreakers[resource]
-	updateMux.RUnlock()
 	ret := make(map[string]circuitbreaker.CircuitBreaker, len(nodes))
 	for address, breaker := range nodes {
 		ret[address] = breaker
